@@ -1628,6 +1628,7 @@ class Stream(AbstractStream):
             self._thermal_condition = other._thermal_condition
         if flow:
             self._imol.data = other._imol.data
+            if hasattr(self, '_streams'): self._streams.clear()
         if phase and self._imol.data.ndim == 1:
             self._imol._phase = other._imol._phase
             
@@ -1670,6 +1671,7 @@ class Stream(AbstractStream):
                 imol._phase = imol._phase.copy()
         imol._data_cache.clear()
         imol.data = imol.data.copy()
+        if hasattr(self, '_streams'): self._streams.clear()
         self._thermal_condition = self._thermal_condition.copy()
         self.reset_cache()
         
